@@ -17,7 +17,8 @@ Not proved here (left to the correspondence): that the devkit really has the tab
 model (each assumed fact is a named TRUSTED entry of the harness with a case family exposing a
 deviation); IEEE arithmetic of the pose and velocity computation (the float `1e-6 * timestamp` enters
 the model as the exact rational `Sample.secs`); the order in which Python enumerates `set(uuids)`.
-Not modelled: the transforms other than ego→map stored with a frame, `load_raw_data`.
+Modelled besides ego→map: the averaged traffic-light camera (`tlrAverage`, up to the irrational
+normalisation). Not modelled: the other sensor transforms stored with a frame, `load_raw_data`.
 -/
 namespace PEval.C16
 open PEval PEval.Dataset
@@ -545,29 +546,100 @@ theorem sensor_channels_are_frame_ids (T : Tables) (cfg : Config) (n : Nat) (s :
     simp only [hl] at hm
     exact ⟨sen, m, rfl, hm⟩
 
-/-- KNOWN FINDING C16-N1, pinned down: `_get_transforms` averages the calibrated rotations of the
-traffic-light cameras as `sum(q) / sum(q).norm`. A loaded frame therefore implies that those rotations
-do not sum to the zero quaternion, and a dataset where they do — two cameras calibrated `q` and `-q`,
-which is one and the same rotation — cannot be loaded at all (`ZeroDivisionError`), for any task. -/
-theorem traffic_light_rotations_must_not_cancel (T : Tables) (cfg : Config) (n : Nat) (s : Sample) :
-    (∀ f, sampleToFrame T cfg n s = .ok f → ∃ frs, sensorFrames T = .ok frs ∧
-      (tlrRotations T frs = [] ∨ (tlrRotations T frs).foldl Quat.add Quat.zero ≠ Quat.zero)) ∧
-    (∀ sd ego cs, lidarOf T s.token = .ok sd → (cfg.frame = "BASE_LINK" ∨ cfg.frame = "MAP") →
-      lookup EgoPose.token T.egoPoses sd.egoPoseToken = .ok ego →
-      lookup CalibratedSensor.token T.calibratedSensors sd.calibratedSensorToken = .ok cs →
-      sensorFrames T = .error "ZeroDivisionError" → sampleToFrame T cfg n s = .error "ZeroDivisionError") := by
-  refine ⟨?_, ?_⟩
-  · intro f h
-    obtain ⟨_, _, _, _, frs, _, _, _, _, hfrs, _, _⟩ := sampleToFrame_ok h
-    exact ⟨frs, hfrs, (sensorFrames_ok hfrs).2⟩
-  · intro sd ego cs hsd hfr hego hcs hz
-    simp [sampleToFrame, hsd, hfr, hego, hcs, hz, bind, Except.bind]
+/-- FIXED FINDING C16-N1 (before the repair two traffic-light cameras calibrated `q` and `-q` — one and
+the same rotation — made every load raise `ZeroDivisionError`). `_get_transforms` averages the calibrated
+rotations of the traffic-light cameras as `sum / sum.norm` AFTER negating every rotation whose 4-D dot
+product with the FIRST one is negative (`alignSigns`). For every list of calibrated rotations whose first
+one is not the zero quaternion (pose tables hold unit quaternions):
+
+1. every aligned rotation is the calibrated one or its negation (the same rotation), and lies in the
+   closed half-space of the first: the alignment changes no camera;
+2. the aligned sum keeps a component of at least `|q₀|²` along the first rotation `q₀`, hence is NOT the
+   zero quaternion, whatever the signs and the number of the rotations;
+3. so `_get_transforms` never raises `ZeroDivisionError` on tables without zero rotations: it fails only
+   where a calibrated sensor's sensor does not resolve (`KeyError`) or its channel is no `FrameID` value
+   (`ValueError`), and no frame of any 3-D task fails with `ZeroDivisionError`. -/
+theorem traffic_light_rotations_never_cancel :
+    (∀ q0 q : Quat, (alignTo q0 q = q ∨ alignTo q0 q = q.neg) ∧ 0 ≤ Quat.dot q0 (alignTo q0 q)) ∧
+    (∀ (q0 : Quat) (rest : List Quat), q0 ≠ Quat.zero →
+      q0.normSq ≤ Quat.dot q0 ((alignSigns (q0 :: rest)).foldl Quat.add Quat.zero) ∧
+      (alignSigns (q0 :: rest)).foldl Quat.add Quat.zero ≠ Quat.zero) ∧
+    (∀ (T : Tables) (frs : List String),
+      (∀ q, (tlrRawRotations T frs).head? = some q → q ≠ Quat.zero) → tlrRotations T frs ≠ [] →
+      (tlrRotations T frs).foldl Quat.add Quat.zero ≠ Quat.zero) ∧
+    (∀ T : Tables, (∀ cs ∈ T.calibratedSensors, cs.rotation ≠ Quat.zero) →
+      sensorFrames T ≠ .error "ZeroDivisionError" ∧
+      (∀ e, sensorFrames T = .error e → e = "KeyError" ∨ e = "ValueError") ∧
+      ∀ (cfg : Config) (n : Nat) (s : Sample) (sd : SampleData) (ego : EgoPose) (cs : CalibratedSensor),
+        lidarOf T s.token = .ok sd → (cfg.frame = "BASE_LINK" ∨ cfg.frame = "MAP") →
+        lookup EgoPose.token T.egoPoses sd.egoPoseToken = .ok ego →
+        lookup CalibratedSensor.token T.calibratedSensors sd.calibratedSensorToken = .ok cs →
+        (∃ frs, sensorFrames T = .ok frs) ∨
+          sampleToFrame T cfg n s = .error "KeyError" ∨ sampleToFrame T cfg n s = .error "ValueError") := by
+  refine ⟨?_, ?_, ?_, ?_⟩
+  · intro q0 q
+    refine ⟨?_, alignTo_dot_nonneg q0 q⟩
+    rcases alignTo_cases q0 q with ⟨_, e⟩ | ⟨_, e⟩
+    · exact Or.inr e
+    · exact Or.inl e
+  · intro q0 rest h
+    exact ⟨alignSigns_sum_dot q0 rest, alignSigns_sum_ne_zero rest h⟩
+  · intro T frs h hne
+    exact tlrRotations_sum_ne_zero h hne
+  · intro T hr
+    have hkind : ∀ e, sensorFrames T = .error e → e = "KeyError" ∨ e = "ValueError" :=
+      fun e he => sensorFrames_error_kind he hr
+    refine ⟨?_, hkind, ?_⟩
+    · intro hz
+      rcases hkind _ hz with h | h <;> simp at h
+    · intro cfg n s sd ego cs hsd hfr hego hcs
+      cases hs : sensorFrames T with
+      | ok frs => exact Or.inl ⟨frs, rfl⟩
+      | error e =>
+        right
+        rcases hkind e hs with rfl | rfl
+        · left; simp [sampleToFrame, hsd, hfr, hego, hcs, hs, bind, Except.bind]
+        · right; simp [sampleToFrame, hsd, hfr, hego, hcs, hs, bind, Except.bind]
+
+/-- the averaged traffic-light camera stored with a frame (`CAM_TRAFFIC_LIGHT -> BASE_LINK`): its rotation is
+the (normalised) sum of the sign-aligned calibrated rotations, which is not the zero quaternion and has a
+positive component along the first camera's rotation — two cameras calibrated `q` and `-q` average to `q`,
+not to garbage; its position is the mean of the calibrated translations -/
+theorem traffic_light_average (T : Tables) (hr : ∀ cs ∈ T.calibratedSensors, cs.rotation ≠ Quat.zero)
+    (avg : Pose) (h : tlrAverage T = .ok (some avg)) :
+    ∃ frs q0 rest, sensorFrames T = .ok frs ∧ tlrRawRotations T frs = q0 :: rest ∧
+      avg.rot = (q0 :: rest.map (alignTo q0)).foldl Quat.add Quat.zero ∧
+      avg.rot ≠ Quat.zero ∧ 0 < q0.normSq ∧ q0.normSq ≤ Quat.dot q0 avg.rot ∧
+      avg.pos = ((tlrPositions T frs).foldl Vec3.add Vec3.zero).divBy ((tlrPositions T frs).length : Nat) := by
+  unfold tlrAverage at h
+  cases hs : sensorFrames T with
+  | error e => simp [hs] at h
+  | ok frs =>
+    simp only [hs] at h
+    split at h
+    · cases h
+    · rename_i hne
+      simp only [Except.ok.injEq, Option.some.injEq] at h
+      subst h
+      cases hl : tlrRawRotations T frs with
+      | nil => simp [tlrRotations, hl, alignSigns] at hne
+      | cons q0 rest =>
+        have hq0 : q0 ≠ Quat.zero := by
+          obtain ⟨cs, hcs, rfl⟩ := tlrRawRotations_mem (T := T) (frs := frs) (q := q0) (by simp [hl])
+          exact hr cs hcs
+        refine ⟨frs, q0, rest, rfl, hl, ?_, ?_, Quat.normSq_pos hq0, ?_, rfl⟩
+        · simp [tlrRotations, hl, alignSigns]
+        · simpa [tlrRotations, hl] using alignSigns_sum_ne_zero rest hq0
+        · simpa [tlrRotations, hl] using alignSigns_sum_dot q0 rest
 
 /-! ## loading a well-formed dataset never fails -/
 
 /-- on referentially intact tables (`WellFormed`: every followed token resolves, every sample has a
-lidar key frame, every sensor channel is a `FrameID` value) the loader returns frames for both supported
-frame ids, detection / tracking / sensing, merge on/off (for FP_VALIDATION see `fp_validation_*`) -/
+lidar key frame, every sensor channel is a `FrameID` value, no calibrated rotation is the zero quaternion)
+the loader returns frames for both supported frame ids, detection / tracking / sensing, merge on/off (for
+FP_VALIDATION see `fp_validation_*`). `WellFormed` no longer asks that `_get_transforms` succeed: that the
+traffic-light cameras' rotations cannot cancel is proved (`traffic_light_rotations_never_cancel`), so
+cameras calibrated `q` and `-q` are covered -/
 theorem load_total (T : Tables) (cfg : Config) (wf : WellFormed T)
     (hfr : cfg.frame = "BASE_LINK" ∨ cfg.frame = "MAP") (hfp : cfg.fpValidation = false) :
     ∃ fs, loadDataset T cfg = .ok fs := by
@@ -738,7 +810,8 @@ theorem merged_traffic_lights (T : Tables) (cfg : Config2D) (n : Nat) (s : Sampl
   subst h1
   exact ⟨h2, h3, h4, c, hc, hcu, rest⟩
 
-/-- on referentially intact tables (`WellFormed2D`) the 2-D loader returns frames for every list of
+/-- on referentially intact tables (`WellFormed2D`, which like `WellFormed` puts no condition on the
+signs of the calibrated rotations) the 2-D loader returns frames for every list of
 frame ids, every 2-D task and both label families — the merging configuration excepted, which can
 also fail with `AssertionError` on three or more distinct labels under one uuid -/
 theorem load2d_total (T : Tables) (cfg : Config2D) (wf : WellFormed2D T)
@@ -826,12 +899,25 @@ example : velocityOf exTables true exA2 = velocityOf exTables true exA0 := by de
 example : (exTables.annotations.map (fun a => (velocityOf exTables true a).toOption.join.isSome)) =
     [true, false, true] := by decide +kernel
 
--- C16-N1: the example with two traffic-light cameras calibrated q and -q cannot be loaded
-example : sensorFrames { exTables2D with
-    sensors := exTables2D.sensors ++ [⟨"senX", "CAM_TRAFFIC_LIGHT_FAR"⟩],
-    calibratedSensors := [⟨"csT", "senT", Vec3.zero, Quat.one⟩, ⟨"csN", "senN", ⟨1, 0, 2⟩, ⟨4/5, 0, 0, 3/5⟩⟩,
-                          ⟨"csX", "senX", ⟨1, 0, 3⟩, ⟨-4/5, 0, 0, -3/5⟩⟩] } = .error "ZeroDivisionError" := by
+-- C16-N1 (fixed): the example with two traffic-light cameras calibrated q and -q now LOADS, for 3-D and
+-- 2-D tasks; the second rotation is negated before the average, which is 2q (the rotation q), mean position
+example : WellFormed exTablesN1 ∧ WellFormed2D exTablesN1 := ⟨exTablesN1_wellFormed, exTablesN1_wellFormed2D⟩
+example : tlrRawRotations exTablesN1 ["LIDAR_TOP", "CAM_FRONT", "CAM_TRAFFIC_LIGHT_NEAR", "CAM_TRAFFIC_LIGHT_FAR"] =
+    [⟨4/5, 0, 0, 3/5⟩, ⟨-4/5, 0, 0, -3/5⟩] := by decide +kernel
+example : (tlrRawRotations exTablesN1 ["LIDAR_TOP", "CAM_FRONT", "CAM_TRAFFIC_LIGHT_NEAR", "CAM_TRAFFIC_LIGHT_FAR"]).foldl
+    Quat.add Quat.zero = Quat.zero := by decide +kernel
+example : sensorFrames exTablesN1 = .ok ["LIDAR_TOP", "CAM_FRONT", "CAM_TRAFFIC_LIGHT_NEAR", "CAM_TRAFFIC_LIGHT_FAR"] := by
   decide +kernel
+example : tlrAverage exTablesN1 = .ok (some ⟨⟨1, 0, 5/2⟩, ⟨8/5, 0, 0, 6/5⟩⟩) := by decide +kernel
+example : ∃ fs, loadDataset exTablesN1 ⟨true, "MAP", true, false⟩ = .ok fs ∧ fs.length = 2 := by
+  obtain ⟨fs, h⟩ := load_total exTablesN1 ⟨true, "MAP", true, false⟩ exTablesN1_wellFormed (Or.inr rfl) rfl
+  exact ⟨fs, h, (frames_length_order_time _ _ fs h).1⟩
+example : (loadDataset exTablesN1 ⟨false, "BASE_LINK", false, false⟩).toBool = true := by decide +kernel
+example : ∃ fs, loadDataset2D exTablesN1 ⟨"DETECTION2D", "traffic_light", false, ["CAM_FRONT", "CAM_TRAFFIC_LIGHT_NEAR"]⟩ = .ok fs :=
+  load2d_total exTablesN1 _ exTablesN1_wellFormed2D (by decide)
+-- nearly antipodal (dot < 0, not cancelling) and orthogonal (dot = 0: kept) rotations
+example : alignSigns [⟨4/5, 0, 0, 3/5⟩, ⟨-3/5, 0, 0, -4/5⟩, ⟨-3/5, 0, 0, 4/5⟩, ⟨0, 1, 0, 0⟩] =
+    [⟨4/5, 0, 0, 3/5⟩, ⟨3/5, 0, 0, 4/5⟩, ⟨-3/5, 0, 0, 4/5⟩, ⟨0, 1, 0, 0⟩] := by decide +kernel
 example : isTlrCamera "CAM_TRAFFIC_LIGHT_NEAR" = true ∧ isTlrCamera "CAM_TRAFFIC_LIGHT" = true ∧
     isTlrCamera "CAM_FRONT" = false := by decide +kernel
 
